@@ -104,6 +104,7 @@ def try_build(name, kw, k=1.0):
 
 
 _TWIN = [0]
+from grooves_catalogue import LENGTH_KEYS as GC_LENGTHS, ANGLE_KEYS as GC_ANGLES      # noqa: E402
 # configuration values that have nothing to do with the shape of a groove (solver precision and limits, rotation switch, surface / profile sampling)
 UNRELATED_CONFIG = {'DEFAULT_ITERATION_PRECISION': 0.06, 'DEFAULT_MAX_ITERATION_COUNT': 3, 'ROLL_PASS_AUTO_ROTATION': False,
                     'ROLL_SURFACE_DISCRETIZATION_COUNT': 7, 'PROFILE_CONTOUR_REFINEMENT': 13}
@@ -133,6 +134,47 @@ def config_twin(chk, name, kw, g, label):
                  {'groove': name, 'kwargs': kw, 'stream': label, 'config': {k: UNRELATED_CONFIG[k] for k in old}})
 
 
+def observer_and_types(chk, name, kw, g, data):
+    """(a) looking at a groove - representations, plots, probing its depth function with its own vertex array - changes nothing;
+       (b) the same values handed in as 0-d float arrays give the same groove and are left as they were"""
+    from common import look_at, as_0d
+    before = np.array(g.contour_points, dtype=float, copy=True)
+    attrs = {a: float(getattr(g, a)) for a in ('depth', 'usable_width', 'width') if getattr(g, a, None) is not None}
+    look_at(g, html=(_TWIN[0] % 6 == 0))
+    zs = g.contour_points[:, 0] if hasattr(g.contour_points, 'shape') else np.asarray(g.contour_points)[:, 0]
+    try:
+        g.local_depth(zs)
+        g.local_depth(list(map(float, before[:3, 0])))
+        g.local_depth(float(before[0, 0]))
+    except Exception:      # noqa
+        pass
+    after = np.asarray(g.contour_points, dtype=float)
+    if after.shape != before.shape or np.any(after != before) or any(float(getattr(g, a)) != v for a, v in attrs.items()) \
+            or np.any(np.asarray(g.contour_line.coords) != before):
+        return chk.fail('observer-effect', f"{name}{kw}: after the groove was looked at (repr, str, __attrs__, html/plot, local_depth called with its own vertex "
+                        f"positions) its contour points / dimensions are no longer what they were (max change "
+                        f"{np.max(np.abs(after - before)) if after.shape == before.shape else 'shape'})", data)
+    kw0, orig = as_0d(kw, GC_LENGTHS | GC_ANGLES)
+    import pyroll.core as _pc
+    try:        # (the class itself: the catalogue's build helper would turn the arrays into plain numbers)
+        g0, e0 = getattr(_pc, name)(**kw0), None
+    except Exception as e_:      # noqa
+        g0, e0 = None, e_
+    chk.cov['evaluations'] += 1
+    if g0 is None:
+        return chk.fail('input-type', f"{name}{kw}: the same values handed in as 0-d float arrays are rejected: {type(e0).__name__}: {str(e0)[:100]}", data)
+    changed = {k: float(kw0[k]) for k, v in orig.items() if float(kw0[k]) != v}
+    p0 = np.asarray(g0.contour_points, dtype=float)
+    if changed or p0.shape != before.shape or np.max(np.abs(p0 - before)) > 1e-12 * max(attrs.get('usable_width', 1.0), 1e-300):
+        return chk.fail('input-type', f"{name}{kw}: built from 0-d float arrays the groove differs from the one built from floats (max deviation "
+                        f"{np.max(np.abs(p0 - before)) if p0.shape == before.shape else 'shape'}), caller's arrays changed: {changed}", data)
+    # ... and a groove built earlier from the same caller objects still reports what was requested
+    for k, v in orig.items():
+        got = getattr(g0, k, None)
+        if got is not None and k in GC_LENGTHS and abs(float(got) - v) > 1e-9 * max(abs(v), 1e-300) and abs(float(getattr(g, k)) - v) <= 1e-9 * max(abs(v), 1e-300):
+            return chk.fail('input-type', f"{name}{kw}: built from 0-d float arrays the groove reports {k} = {float(got)}, requested {v}", data)
+
+
 def judge(chk, name, kw, label, must_build=False, must_raise=False):
     g, e = try_build(name, kw)
     chk.cov['evaluations'] += 1
@@ -140,6 +182,8 @@ def judge(chk, name, kw, label, must_build=False, must_raise=False):
     _TWIN[0] += 1
     if _TWIN[0] % 2 == 0 or label == 'catalogue':
         config_twin(chk, name, kw, g, label)
+    if g is not None and label == 'catalogue' and not [f for f in chk.failures if f.key != 'corner-rounding-above-depth']:
+        observer_and_types(chk, name, kw, g, data)
     if g is None:
         chk.x_stats['streams'][label]['rejected'] += 1
         if must_build:
@@ -293,6 +337,16 @@ def streams(chk, rng):
                 chk.fail('generic-arity', f"GenericElongationGroove({common}, {kw}) is {'accepted' if ok else 'rejected'} with {len(kw)} of the four "
                          "defining values", {'kwargs': kw, 'depth_zero': dz})
                 return built
+    # the generic class itself, every three of its four defining values, looked at and built from 0-d arrays (angles in radians here)
+    gw, dp, fl, r2_ = 10.0, 5.0, math.radians(60), 2.0
+    full = dict(usable_width=gw + 2 * dp / math.tan(fl), ground_width=gw, flank_angle=fl, depth=dp)
+    for drop in full:
+        kw = dict({k: v for k, v in full.items() if k != drop}, r1=1.0, r2=r2_, even_ground_width=gw - 2 * r2_ * math.tan(fl / 2))
+        g, e = try_build('GenericElongationGroove', kw)
+        if g is None:
+            chk.notes.append(f"generic three-of-four without {drop}: {type(e).__name__}")
+        elif not [f for f in chk.failures if f.key != 'corner-rounding-above-depth']:
+            observer_and_types(chk, 'GenericElongationGroove', kw, g, {'groove': 'GenericElongationGroove', 'kwargs': kw, 'stream': 'generic three-of-four'})
     return built
 
 
